@@ -35,6 +35,94 @@ fn probe(args: &[String]) {
     }
 }
 
+/// Run `vcheck <args>` as a child process. Some(code) = it exited by itself; None = it was killed by a signal
+/// (stack overflow -> SIGABRT/SIGSEGV, OOM kill ...) or did not finish within the limit.
+fn run_child(args: &[String], journal: Option<&str>, limit_s: Option<u64>) -> Option<i32> {
+    let exe = std::env::current_exe().expect("current_exe");
+    let mut cmd = std::process::Command::new(exe);
+    cmd.args(args).env("VERIF_CHILD", "1");
+    match journal {
+        Some(d) => {
+            cmd.env("VERIF_JOURNAL_DIR", d);
+        }
+        None => {
+            cmd.env_remove("VERIF_JOURNAL_DIR");
+        }
+    }
+    let mut child = cmd.spawn().expect("spawn child");
+    let t0 = std::time::Instant::now();
+    loop {
+        match child.try_wait() {
+            Ok(Some(st)) => return st.code(),
+            Ok(None) => {
+                if let Some(l) = limit_s {
+                    if t0.elapsed().as_secs() > l {
+                        let _ = child.kill();
+                        let _ = child.wait();
+                        return None;
+                    }
+                }
+                std::thread::sleep(std::time::Duration::from_millis(if limit_s.is_some() { 50 } else { 200 }));
+            }
+            Err(_) => return Some(3),
+        }
+    }
+}
+
+/// The check itself runs in a child process; if that process dies (a stack overflow or abort inside the library
+/// cannot be caught in-process), every case a worker thread was busy with is replayed in a fresh process, and the
+/// one that kills its process again is the violation.
+fn supervise(id: &'static str, tier: engine::Tier, args: &[String]) -> ! {
+    let t0 = std::time::Instant::now();
+    let base = if std::path::Path::new("/dev/shm").is_dir() { "/dev/shm".to_string() } else { format!("{}/replays", engine::verif_dir()) };
+    let dir = format!("{}/vcheck-journal-{}", base, std::process::id());
+    let _ = std::fs::remove_dir_all(&dir);
+    let _ = std::fs::create_dir_all(&dir);
+    let code = run_child(args, Some(&dir), None);
+    if let Some(c) = code {
+        let _ = std::fs::remove_dir_all(&dir);
+        std::process::exit(c);
+    }
+    eprintln!("[{}] the check process was killed by a signal; replaying the cases its threads were working on, each in a fresh process", id);
+    let cases = engine::read_journal(&dir);
+    let rdir = format!("{}/replays", engine::verif_dir());
+    let _ = std::fs::create_dir_all(&rdir);
+    let seed = std::env::var("VERIF_SEED").ok().and_then(|s| s.trim().parse::<i64>().ok()).unwrap_or(1);
+    let mut found = vec![];
+    for (k, c) in cases.iter().enumerate() {
+        let path = format!("{}/{}-crash-{}-{}.json", rdir, id, seed, k);
+        let mut body = c.clone();
+        body["message"] = serde_json::Value::String("the process evaluating this case was killed by a signal (stack overflow / abort inside the library)".into());
+        let _ = std::fs::write(&path, serde_json::to_string_pretty(&body).unwrap());
+        match run_child(&["--replay".to_string(), path.clone()], None, Some(180)) {
+            Some(0) => {
+                let _ = std::fs::remove_file(&path);
+            }
+            _ => found.push((path, c.clone())),
+        }
+    }
+    let _ = std::fs::remove_dir_all(&dir);
+    let samples: Vec<serde_json::Value> = found.iter().map(|(_, c)| c.clone()).collect();
+    let ev = serde_json::json!({
+        "property_id": id, "tier": tier.name(), "seed": seed, "level": "exploration",
+        "wall_s": t0.elapsed().as_secs_f64(), "violations": found.len(), "exit_code": if found.is_empty() { 2 } else { 1 },
+        "coverage": {"evaluations": 0, "distinct_nontrivial": 0, "exhaustive": false, "samples": samples,
+            "rule": "the check process was killed by a signal before it could report; the cases its worker threads were busy with were replayed one by one in fresh processes"},
+        "assumptions": [], "notes": ["process death in the library under test (stack overflow / abort): counts are not available for this run"],
+    });
+    let _ = std::fs::create_dir_all(format!("{}/evidence", engine::verif_dir()));
+    let _ = std::fs::write(format!("{}/evidence/{}.json", engine::verif_dir(), id), serde_json::to_string_pretty(&ev).unwrap());
+    if found.is_empty() {
+        eprintln!("[{}] none of the {} journalled cases kills a fresh process: inconclusive (exit 2)", id, cases.len());
+        std::process::exit(2);
+    }
+    for (p, c) in &found {
+        println!("VIOLATION property={} replay={}", id, p);
+        eprintln!("  sub={} the process dies (or fails) on this case: {}", c["sub"].as_str().unwrap_or(""), serde_json::to_string(&c["case"]).unwrap_or_default().chars().take(400).collect::<String>());
+    }
+    std::process::exit(1);
+}
+
 fn main() {
     std::env::set_var("TZ", "UTC");
     engine::install_panic_hook();
@@ -59,6 +147,18 @@ fn main() {
     if args[0] == "fuzz-dict" {
         print!("{}", vlib::fuzzdec::dictionary());
         return;
+    }
+    if args[0] == "--replay" && std::env::var("VERIF_CHILD").is_err() {
+        // replay in a child: a case that kills its process is still reported as failing
+        match run_child(&args, None, Some(600)) {
+            Some(c) => std::process::exit(c),
+            None => {
+                eprintln!("still fails: the process replaying the case was killed by a signal (or did not finish in 600 s)");
+                let id = std::fs::read_to_string(&args[1]).ok().and_then(|s| serde_json::from_str::<serde_json::Value>(&s).ok()).and_then(|j| j["property"].as_str().map(|s| s.to_string())).unwrap_or_default();
+                println!("VIOLATION property={} replay={}", id, args[1]);
+                std::process::exit(1);
+            }
+        }
     }
     if args[0] == "--replay" {
         let raw = std::fs::read(&args[1]).expect("read replay file");
@@ -114,6 +214,9 @@ fn main() {
         if !t.is_empty() && t != tier.name() {
             eprintln!("note: VERIF_TIER={} differs from the tier argument {}; the argument wins", t, tier.name());
         }
+    }
+    if std::env::var("VERIF_CHILD").is_err() {
+        supervise(id, tier, &args);
     }
     let ctx = engine::Ctx::new(id, tier);
     ctx.replay_findings(&|w, sub, case| vlib::replay_property(id, w, sub, case));
